@@ -27,10 +27,10 @@ open CalmVerif.Props.C13
 #print axioms attached_comment_offsets_increasing
 #print axioms comments_faithful_ordered
 #print axioms line_comment_followed_by_newline
-#print axioms comment_carriers_print_comments_partial
-#print axioms case_block_drops_comments
+#print axioms comment_carriers_print_comments
+#print axioms fixed_kf13c_case_block_prints_comments
 #print axioms restricted_production_split_witness
-#print axioms case_block_comment_not_printed_witness
+#print axioms fixed_kf13c_witness
 
 #check @token_comments_transparent
 #check @auto_semi_comments_transparent
@@ -58,7 +58,7 @@ open CalmVerif.Props.C13
 #check @attached_comment_offsets_increasing
 #check @comments_faithful_ordered
 #check @line_comment_followed_by_newline
-#check @comment_carriers_print_comments_partial
-#check @case_block_drops_comments
+#check @comment_carriers_print_comments
+#check @fixed_kf13c_case_block_prints_comments
 #check @restricted_production_split_witness
-#check @case_block_comment_not_printed_witness
+#check @fixed_kf13c_witness
